@@ -82,6 +82,7 @@ func c04gen(r *gen.R) c04case {
 }
 
 func c04main(c *Ctx) {
+	gen.ExtremeTimes = true
 	log := mon.NewLog()
 	w := mon.New(log, "W", mon.ShapePlain)
 	c.Each(func(idx int, r *gen.R) {
@@ -93,9 +94,12 @@ func c04main(c *Ctx) {
 		} else {
 			slog.RemoveFlags(slog.Lcaller)
 		}
+		// the other presentation flags must not matter for validity: any combination
+		otherFlags := randomOtherFlags(r)
 		lg := newRoot(cs.name, FJSON, w, slog.AlwaysLevel)
 		evs := capture(log, func() { lg.LogAttrs(bg, cs.lvl, cs.msg, anyAttrs(cs.kvs)...) })
 		desc := describe(FJSON, cs.name, cs.msg, cs.lvl, cs.caller, cs.kvs)
+		desc["other_flags"] = otherFlags
 		c.R.Add("write_events", int64(len(evs)))
 		if len(evs) != 1 || evs[0].Kind != mon.EvWrite {
 			c.R.Violation(idx, "one-write", "C04/one-write", fmt.Sprintf("expected exactly one Write, saw %s", fmtEvents(evs)), desc)
@@ -170,8 +174,9 @@ func c04check(payload []byte, cs c04case) (out []cv) {
 	}
 	cal := n.Get("caller")
 	if cs.caller {
+		// file and function are required; the line number may legitimately depend on the line-number flag
 		if cal == nil || cal.Kind != oracle.JObj || cal.Get("file") == nil || cal.Get("file").Kind != oracle.JStr ||
-			cal.Get("line") == nil || cal.Get("line").Kind != oracle.JNum || cal.Get("function") == nil || cal.Get("function").Kind != oracle.JStr {
+			(cal.Get("line") != nil && cal.Get("line").Kind != oracle.JNum) || cal.Get("function") == nil || cal.Get("function").Kind != oracle.JStr {
 			out = append(out, cv{"envelope", "caller member missing or malformed: " + cal.Brief()})
 		}
 	} else if cal != nil {
